@@ -1126,6 +1126,15 @@ pub enum GuardFail {
     Panic(String),
 }
 
+/// Worker-thread count of a check: env `VERIF_THREADS` (default 16).
+pub fn worker_threads() -> usize {
+    std::env::var("VERIF_THREADS")
+        .ok()
+        .and_then(|s| s.trim().parse::<usize>().ok())
+        .filter(|n| *n >= 1)
+        .unwrap_or(16)
+}
+
 /// Run `f(thread_index)` on `n` threads, each with its own current-thread tokio runtime.
 pub fn run_threads<'a, F>(n: usize, f: F)
 where
